@@ -390,4 +390,29 @@ Section Push.
       + replace (1 + (x + shift) * lmbda) with (lmbda * (x + shift) + 1) by ring.
         now rewrite Rpow_pos.
   Qed.
+
+  Theorem boxcox_increasing lmbda shift x y : x < y ->
+    (isclose0 O lmbda = true -> array_boxcox_elem O lmbda shift x < array_boxcox_elem O lmbda shift y) /\
+    (isclose0 O lmbda = false -> 0 < lmbda * (x + shift) + 1 -> 0 < lmbda * (y + shift) + 1 ->
+       array_boxcox_elem O lmbda shift x < array_boxcox_elem O lmbda shift y).
+  Proof.
+    intros Hxy. unfold array_boxcox_elem. split.
+    - intros ->. simpl. apply exp_increasing. lra.
+    - intros E Hx Hy. rewrite E. rewrite !nmax_R. simpl.
+      assert (Hl : lmbda <> 0).
+      { intros ->. assert (isclose0 O 0 = true); [|congruence].
+        apply isclose0_R. rewrite Rabs_R0. apply Rlt_le. apply Rdiv_lt_0_compat; [lra|]. apply pow_lt; lra. }
+      rewrite !Rmax_left by lra. rewrite !Rpow_pos by assumption.
+      unfold Rpower. apply exp_increasing.
+      destruct (Rtotal_order lmbda 0) as [Hneg|[H0|Hpos]]; [|contradiction|].
+      + (* lmbda < 0: the base decreases, 1/lmbda is negative *)
+        assert (Hb : lmbda * (y + shift) + 1 < lmbda * (x + shift) + 1) by nra.
+        apply ln_increasing in Hb; [|assumption].
+        assert (Hi : 1 / lmbda < 0) by (unfold Rdiv; rewrite Rmult_1_l; now apply Rinv_lt_0_compat).
+        nra.
+      + assert (Hb : lmbda * (x + shift) + 1 < lmbda * (y + shift) + 1) by nra.
+        apply ln_increasing in Hb; [|assumption].
+        assert (Hi : 0 < 1 / lmbda) by (unfold Rdiv; rewrite Rmult_1_l; now apply Rinv_0_lt_compat).
+        nra.
+  Qed.
 End Push.
